@@ -18,6 +18,7 @@ structure St where
   vol : Vol := {}
   specChain : List Block := [⟨"G", "", 0, []⟩]    -- the chain the wallet has been told about (spec side)
   specPend : List Tx := []                        -- the pending set of MW.Spec.Pending (spec side)
+  warm : Nat := Gen.Vm.massip2WarmUpHeight        -- consensus.MASSIP0002WarmUpHeight (a value of the run: op `warmup`)
   shape : AMap.T TxId Model.TxLoc.Shape := []     -- what decides the encoded length of a defined transaction (block-file offsets)
   deriving Inhabited
 
@@ -118,6 +119,11 @@ def step (st : St) (args : List String) : St × String :=
   | ["params", cb, _mf] =>
     match cb.toNat? with
     | some n => ({ st with p := { cbMaturity := n } }, "ok")
+    | none => (st, "bad-op")
+  | ["warmup", n] =>
+    -- consensus.MASSIP0002WarmUpHeight is a PARAMETER of the run (a value, like the maturities of `params`)
+    match n.toNat? with
+    | some h => ({ st with warm := h }, "ok")
     | none => (st, "bad-op")
   | ["wallet", w] =>
     if st.wallets.contains w then (st, "err") else
@@ -346,13 +352,19 @@ def step (st : St) (args : List String) : St × String :=
               | some tx =>
                 if tx.id ≠ c.tx then "err" else
                 (match tx.outs[idx]? with
-                | some o => s!"seq {Model.WithdrawSeq.seqChoice lock o.cls c.blk.height}"
+                -- the warm-up height is a value of the run: `seqChoice` (stated with the regenerated constant) is
+                -- evaluated at the height translated by the difference (`MW.Lemmas.WithdrawSeq.enforceWarmUp_shift`)
+                | some o => s!"seq {Model.WithdrawSeq.seqChoice lock o.cls (c.blk.height + (Gen.Vm.massip2WarmUpHeight - st.warm))}"
                 | none => "err")
               | none => "err")
           | none => "err"
-        -- spec: a staking deposit must be spent with sequence frozen+1 (consensus sequence lock)
+        -- spec: a staking deposit must be spent with sequence frozen+1 (consensus sequence lock); a binding deposit mined at
+        -- or above the MASSIP-2 warm-up height with MASSIP0002BindingLockedPeriod (the script engine's rule under ScriptMASSip2)
         let sp := match (Spec.Chain.coinsOfWallet (Spec.Chain.ledgerOf st.own st.specChain) w).find? (fun c => c.tx = t && c.idx = idx) with
-          | some c => (match c.cls with | .stk f => s!"seq {f + 1}" | _ => s!"seq {dflt}")
+          | some c => (match c.cls with
+            | .stk f => s!"seq {f + 1}"
+            | .bindOld _ | .bindNew _ => if st.warm ≤ c.height then s!"seq {Gen.Vm.bindingLockedPeriod}" else s!"seq {dflt}"
+            | _ => s!"seq {dflt}")
           | none => "err"
         (st, m ++ "\t" ++ sp)
     | _, _ => (st, "bad-op")
